@@ -158,6 +158,7 @@ def make_doc(spec, caching):
     doc.caching = caching
     doc._cached_objs = {}
     doc._parsed_objs = {}
+    doc._opening_objstms = set()
     doc.decipher = None
     doc.xrefs = []
     parse_log = []
